@@ -1,9 +1,9 @@
 SPECIFICATION Spec
 CONSTANTS
   Files = {1, 2, 3}
-  Sizes = {0, 1, 4, 5}
+  Sizes = {0, 1, 5}
   Align = 4
-  MaxCuts = 2
+  MaxCuts = 1
   MaxArgs = 2
   Dedupe = TRUE
   EmptyEntries = TRUE
